@@ -1111,7 +1111,9 @@ pub fn run(args: &Args, rep: &mut Report) {
             if std::env::var("XV_DUMP_SPECS").is_ok() {
                 eprintln!("SPEC case {k} session {si}: {}", session_json(spec));
             }
+            let _ = xvcommon::take_panic_log();
             let out = run_session(&d, spec, Plan::default(), ErrPolicy::AbandonSession);
+            let session_panics = xvcommon::take_panic_log();
             let wit = |what: &str| {
                 let mut w = witness_base(args, "session", k);
                 w["config"] = json!(cfg_id);
@@ -1139,6 +1141,20 @@ pub fn run(args: &Args, rep: &mut Report) {
                     .next()
                     .unwrap_or_default();
                 rep.count("C01", "sessions_failed_without_fault", 1);
+                // The deduplication crate's own debug assertions (on in the smallchunk profile) are monitors of C15 / C02:
+                // xorb limits in RawXorbData::from_chunks, unresolved references in FileDeduper::cut_new_xorb, aggregator
+                // bookkeeping.  One of them firing in a fault-free session on valid input is a violation (a release build
+                // would have gone on and handed the object to the store).
+                if let Some(pn) = session_panics.iter().find(|p| p.contains("/deduplication/src/")) {
+                    let file = pn.split(':').next().unwrap_or("").rsplit('/').next().unwrap_or("").to_string();
+                    let msg2 = format!("the code's own assertion fired in a fault-free session on valid input: {pn}");
+                    rep.violation("C15", &format!("code-assertion-{file}"), &msg2, wit(&msg2));
+                    if !file.contains("raw_xorb_data") {
+                        rep.violation("C02", &format!("code-assertion-{file}"), &msg2, wit(&msg2));
+                    }
+                } else if !session_panics.is_empty() {
+                    rep.count("C01", "sessions_failed_by_panic_outside_deduplication", 1);
+                }
                 if rep.p("C01").inconclusive_notes.len() < 5 {
                     rep.p("C01").inconclusive_notes.push(format!("fault-free session failed (case {k}, session {si}): {msg}"));
                 }
